@@ -21,6 +21,8 @@ from nutree.rdf import NUTREE_NS
 
 ID = "C17"
 LEVEL = "exploration"
+TECHNIQUE = 'property-based testing: exports are parsed back and compared with edges recomputed from a structural walk'
+LEVEL_TEXT = 'exploration: generated plain/typed trees with clones x DOT/Mermaid/RDF x unique_nodes x root inclusion'
 RULE = (
     "case = (tree spec with clones / explicit ids / kinds, typed?, start); per case every combination of format in "
     "{DOT, Mermaid, RDF} x unique_nodes on/off x add_root/add_self on/off is exported, parsed back into (graph nodes "
